@@ -388,6 +388,18 @@ func synthesize(e *env, duty core.Duty, rng *rand.Rand) []base {
 	// ROUND-CHANGE with a prepared claim
 	rc := e.mkMsg(4, duty, 0, 2, zero32(), 1, h1[:])
 	out = append(out, base{Name: "built-round_change-prepared#0", From: 0, W: &pbv1.QBFTConsensusMsg{Msg: rc, Justification: prepares, Values: []*anypb.Any{anyOf(v1)}}})
+	// ROUND-CHANGE whose prepared value is referenced by prepared_value_hash ONLY (no PREPARE beside it
+	// carries that hash as its value hash), alone and as a justification of a PRE-PREPARE
+	v3 := &pbv1.PriorityResult{Msgs: []*pbv1.PriorityMsg{{Duty: core.DutyToProto(duty), PeerId: fmt.Sprint("v3-", rng.Int63())}}}
+	h3 := hashProtoIndep(v3)
+	rc3 := e.mkMsg(4, duty, 2%e.n, 2, zero32(), 1, h3[:])
+	out = append(out, base{Name: "built-round_change-prepared-value-referenced-by-prepared-hash-only#0", From: 2 % e.n, W: &pbv1.QBFTConsensusMsg{Msg: rc3, Values: []*anypb.Any{anyOf(v3)}}})
+	{
+		l2 := int((int64(duty.Slot) + int64(duty.Type) + 2) % int64(e.n))
+		out = append(out, base{Name: "built-pre_prepare-with-justification-prepared-hash-only#0", From: l2, W: &pbv1.QBFTConsensusMsg{
+			Msg: e.mkMsg(1, duty, l2, 2, h1[:], 0, zero32()), Justification: []*pbv1.QBFTMsg{rc3, e.mkMsg(2, duty, 1, 1, h1[:], 1, h3[:])},
+			Values: []*anypb.Any{anyOf(v1), anyOf(v3)}}})
+	}
 	// null ROUND-CHANGE
 	out = append(out, base{Name: "built-round_change-null#0", From: 1, W: &pbv1.QBFTConsensusMsg{Msg: e.mkMsg(4, duty, 1, 2, zero32(), 0, zero32())}})
 	// justified PRE-PREPARE for round 2 by its leader: quorum ROUND-CHANGEs (one prepared) + the prepares
@@ -670,6 +682,21 @@ func alterations(in *injector, b base, duty core.Duty, distinct func(string)) {
 			w := proto.Clone(b.W).(*pbv1.QBFTConsensusMsg)
 			w.Values = nil
 			in.mustReject("referenced-values-removed", "values", b.From, w, b.Name)
+		}
+		for i := range b.W.GetValues() { // exactly one value removed / altered by one byte: must be rejected iff some hash still refers to it
+			for _, how := range []string{"removed", "byte-flipped"} {
+				w := proto.Clone(b.W).(*pbv1.QBFTConsensusMsg)
+				if how == "removed" {
+					w.Values = append(w.Values[:i:i], w.Values[i+1:]...)
+				} else if len(w.Values[i].Value) > 0 {
+					w.Values[i].Value[rng.Intn(len(w.Values[i].Value))] ^= 0x01
+				}
+				if in.e.wellFormed(w, in.target()) != nil {
+					in.mustReject("one-referenced-value-"+how, "values[]", b.From, w, b.Name)
+				} else {
+					in.universal("one-value-"+how+"-still-wellformed", b.From, w, b.Name)
+				}
+			}
 		}
 		{ // referenced value replaced by another valid value
 			w := proto.Clone(b.W).(*pbv1.QBFTConsensusMsg)
